@@ -51,7 +51,7 @@ func genCase(profile string) *rapid.Generator[Case] {
 		// clock: requests pile up behind a parked query listener while the event expires
 		queryHeavy := gateName == "query" || gateName == "listener"
 		hot := []string{"svc.s.1", "svc.s.2", "svc.t.a.1", "svc.t.a.2", "svc.r.1", "svc.m.1", "svc.m.w.a.x", "svc.t.a.1", "svc.m.fixed", "svc.m.q.1",
-			"svc.u.book.1", "svc.u.toy.1", "svc.m.a.b", "svc.m.c.b", "svc.r.1", "svc", "svc", "svc.m.n.a.1", "svc.m.n.a.2", "svc.x.a.1", "svc.x.a.2", "svc.m.n.k.1.a", "svc.m.n.k.2.a", "svc.z.1"}
+			"svc.u.book.1", "svc.u.toy.1", "svc.m.a.b", "svc.m.c.b", "svc.r.1", "svc", "svc", "svc.m.n.a.1", "svc.m.n.a.2", "svc.x.a.1", "svc.x.a.2", "svc.m.n.k.1.a", "svc.m.n.k.2.a", "svc.z.1", "svc.m.fixed", "svc.m.fixed"}
 		genRID := rapid.OneOf(rapid.SampledFrom(hot), rapid.SampledFrom(hot), rapid.SampledFrom(allRIDs))
 		foreign := func() Op {
 			return Op{K: "foreign", Typ: rapid.SampledFrom([]string{"reset", "resetall", "token", "tokenid", "tokenreset", "event", "queryevent", "queryevent"}).Draw(t, "ftyp"), RID: rapid.SampledFrom(allRIDs[:10]).Draw(t, "rid")}
